@@ -220,15 +220,23 @@ Definition job_ok (c : case) : bool :=
 
 Definition sug_names (p : proj) : list nat := match pj_sug p with Some s => ps_names s | None => [] end.
 
-Fixpoint sug_walk (maxreq : Z) (lastreply : option (list nat)) (prev : proj) (steps : list (action * proj)) : bool :=
+(* [lastreply]: the names of the reply handed to the suggestion reconcile in progress, when the whole sync it allows succeeds
+   (with early stopping the rules call must succeed too); a Begin that finds a reconcile pending is ignored *)
+Fixpoint sug_walk (cf : cfg) (maxreq : Z) (lastreply : option (list nat)) (prev : proj) (steps : list (action * proj)) : bool :=
   match steps with
   | [] => true
   | (a, p) :: r =>
       let lastreply' := match a with
-                        | Begin CSug _ resp _ => match r_reply resp with ReplyOk names _ => Some names | ReplyErr => None end
+                        | Begin CSug _ resp _ =>
+                            match pj_pending prev with
+                            | (_, true, _) => lastreply
+                            | _ => match r_reply resp with
+                                   | ReplyOk names _ => if negb (c_es cf) || r_esrules resp then Some names else None
+                                   | ReplyErr => None end
+                            end
                         | _ => lastreply end in
       match pj_sug p with
-      | None => sug_walk maxreq lastreply' p r
+      | None => sug_walk cf maxreq lastreply' p r
       | Some s =>
           let maxreq' := Z.max maxreq (ps_requests s) in
           nodupb (ps_names s) && (ps_count s =? Z.of_nat (length (ps_names s))) && (ps_count s <=? maxreq')
@@ -244,11 +252,11 @@ Fixpoint sug_walk (maxreq : Z) (lastreply : option (list nat)) (prev : proj) (st
                           | Some names => list_eqb Nat.eqb (skipn (length (ps_names s0)) (ps_names s)) names
                           | None => false end)
              end
-          && sug_walk maxreq' lastreply' p r
+          && sug_walk cf maxreq' lastreply' p r
       end
   end.
 
-Definition suggestions_ok (c : case) : bool := sug_walk 0 None (initial c) (k_steps c).
+Definition suggestions_ok (c : case) : bool := sug_walk (k_cfg c) 0 None (initial c) (k_steps c).
 
 (* ------------------------------------------------------------------ C04: quiescence implies a verdict, no hot loop *)
 
